@@ -41,10 +41,12 @@ CONSTANTS
   FailSaves,   \* BOOLEAN: the metadata store may reject a save
   Focus,       \* BOOLEAN: while a session is being opened or closed nothing else is scheduled
   Record,      \* BOOLEAN: hist carries predictions (events, projected state) besides the labels
+  ReadOnly,    \* BOOLEAN: metadata.readOnly - the backend is wrapped: Save and Clear are no-ops, Load passes through
   RM,          \* BOOLEAN: rollback mitigation gates deliveries on the persisted seqno of every copy of the vBucket
   Slots,       \* number of copies (active + replicas) listed in the cluster map
   RmUuids,     \* vbUUIDs a copy may report
   Scrapes,     \* BOOLEAN: the metrics endpoint is scraped
+  HookScrapes, \* BOOLEAN: ... also from inside every lifecycle callback of the user's event handler
   Marking,     \* BOOLEAN: record in marks the interesting situations a behaviour goes through (bin/mkwitness)
   WindAt,      \* the wind-down may start once the schedule has this many steps (0: any time)
   Gaps,        \* subset of {"CloseDuringReopen", "LateWait"}: known findings whose interleavings are explored (see known_findings.json);
@@ -180,7 +182,13 @@ Init ==
   /\ wind = "no" /\ marks = {}
   /\ emitv = <<>> /\ obs = ObsInit /\ hist = <<>>
 
-Emit(es) == emitv' = es
+\* a user hook may itself scrape the metrics endpoint (HookScrapes): every lifecycle callback is then followed by the
+\* report of that scrape (it returned, it did not crash)
+RECURSIVE WithHooks(_)
+WithHooks(es) == IF es = <<>> THEN <<>>
+                 ELSE IF Head(es).ev = "Callback" THEN <<Head(es), [ev |-> "HookScrape", name |-> Head(es).name, ok |-> TRUE]>> \o WithHooks(Tail(es))
+                 ELSE <<Head(es)>> \o WithHooks(Tail(es))
+Emit(es) == emitv' = IF HookScrapes THEN WithHooks(es) ELSE es
 CB(n) == [ev |-> "Callback", name |-> n]
 
 \* nothing but the session being opened / closed is scheduled (prunes interleavings, see DESIGN 5)
@@ -242,7 +250,7 @@ Boot ==
   /\ rpc' = [t \in RbThreads |-> "idle"] /\ dpc' = [v \in VB |-> "idle"] /\ reop' = {} /\ scr' = "idle"
   /\ thr' = [v \in VB |-> 0] /\ rtab' = [v \in VB |-> [i \in 1..Slots |-> NoSlot]] /\ dwait' = [v \in VB |-> NoEvent] /\ rmon' = FALSE
   /\ wire' = [v \in VB |-> <<>>]
-  /\ Emit(<<[ev |-> "Boot", auto |-> AutoCkpt, finite |-> Finite, member |-> info[1], total |-> info[2]]>> \o OpenBeginEvs)
+  /\ Emit(<<[ev |-> "Boot", auto |-> AutoCkpt, finite |-> Finite, member |-> info[1], total |-> info[2], readonly |-> ReadOnly]>> \o OpenBeginEvs)
   /\ UNCHANGED <<slog, fo, store, info, cnt>>
 
 \* metadata.Load returns; runs to the GetVBucketSeqNos gate; failure => panic in Load
@@ -562,7 +570,7 @@ SaveLockBody(t) ==
        IN /\ slock' = slock \cup {sv[t].gen} /\ spc' = [spc EXCEPT ![t] = "storing"]
           /\ sv' = [sv EXCEPT ![t].dump = om, ![t].ddirty = dm, ![t].wr = {}]
           /\ UNCHANGED <<dirty, flag>>
-          /\ Emit(<<[ev |-> "SaveBegin", t |-> t, dump |-> om, dirty |-> SortedSeq(dm)]>>)
+          /\ Emit(IF ReadOnly THEN <<>> ELSE <<[ev |-> "SaveBegin", t |-> t, dump |-> om, dirty |-> SortedSeq(dm)]>>)
   ELSE \* lock taken, flag read (it is up): parked at vhook "save.take" (entry of UnmarkDirtyOffsets)
        /\ slock' = slock \cup {sv[t].gen} /\ spc' = [spc EXCEPT ![t] = "take"]
        /\ UNCHANGED <<sv, dirty, flag>>
@@ -576,7 +584,7 @@ SaveTake(t) ==
   /\ LET om == IF sv[t].olive THEN offs ELSE sv[t].osnapm
          dm == IF sv[t].dlive THEN dirty ELSE sv[t].dsnapm
      IN /\ sv' = [Frozen(TRUE, FALSE) EXCEPT ![t] = [sv[t] EXCEPT !.dump = om, !.ddirty = dm, !.wr = {}]]
-        /\ Emit(<<[ev |-> "SaveBegin", t |-> t, dump |-> om, dirty |-> SortedSeq(dm)]>>)
+        /\ Emit(IF ReadOnly THEN <<>> ELSE <<[ev |-> "SaveBegin", t |-> t, dump |-> om, dirty |-> SortedSeq(dm)]>>)
   /\ flag' = FALSE /\ dirty' = {}
   /\ UNCHANGED <<envVars, obsvVars, offs, rng, open, obsNil, active, balancing, cwc, finClose, finEnd, rebalances, stopped, ctxs,
                  synVars, mpc, dcwc, opener, opc, opened, live, foleft, lpart, clo, rpc, dpc, reop, rmVars, scr, sinfo>>
@@ -584,7 +592,7 @@ SaveTake(t) ==
 \* the backend makes the checkpoint of one dirty vb durable (one write per dirty vb, any order)
 StoreWrite(t, v) ==
   /\ UNCHANGED wind
-  /\ up /\ spc[t] = "storing" /\ v \in sv[t].ddirty \ sv[t].wr /\ sv[t].dump[v] # NoOff /\ Prompt
+  /\ up /\ spc[t] = "storing" /\ v \in sv[t].ddirty \ sv[t].wr /\ sv[t].dump[v] # NoOff /\ Prompt /\ ~ReadOnly
   /\ store' = [store EXCEPT ![v] = sv[t].dump[v]]
   /\ sv' = [sv EXCEPT ![t].wr = @ \cup {v}]
   /\ Emit(<<[ev |-> "StoreWrite", t |-> t, vb |-> v, off |-> sv[t].dump[v]]>>)
@@ -725,8 +733,8 @@ SaveAcquire(t) ==
 SaveRet(t, ok) ==
   /\ UNCHANGED wind
   /\ up /\ spc[t] = "storing" /\ Prompt
-  /\ (ok => sv[t].wr = Writable(t))
-  /\ (~ok => FailSaves /\ EnvOK)
+  /\ (ok => ReadOnly \/ sv[t].wr = Writable(t))
+  /\ (~ok => FailSaves /\ EnvOK /\ ~ReadOnly)
   /\ (t = "main" => ~clo.on /\ (GapReopen \/ opener # "timer"))
   /\ spc' = [spc EXCEPT ![t] = "idle"]
   /\ slock' = slock \ {sv[t].gen}
@@ -734,7 +742,7 @@ SaveRet(t, ok) ==
                  balancing, finClose, finEnd, rebalances, stopped, ctxs, tokC, tokE, waits, wpark, cur, rlock, cgen,
                  dcwc, opener, opc, opened, live, foleft, lpart, rpc, dpc, reop, rmVars, scr, sinfo>>
   /\ SaveRetBody(t, ok)
-  /\ LET evs == <<[ev |-> "SaveEnd", t |-> t, ok |-> ok]>> \o SaveRetEvs(t) IN
+  /\ LET evs == (IF ReadOnly THEN <<>> ELSE <<[ev |-> "SaveEnd", t |-> t, ok |-> ok]>>) \o SaveRetEvs(t) IN
      IF t = "main" THEN MainStreamClose(evs, dcwc)
      ELSE /\ Emit(evs) /\ UNCHANGED <<up, mpc, cwc, oclosed, clo, timers>>
 
@@ -1020,7 +1028,9 @@ Step0(l) ==
     [] l.a = "StartWind"  -> StartWind
     [] l.a = "Quiesce"    -> Quiesce
 \* a callback whose wait at the rollback-mitigation gate is over goes on before anything else happens
-Step(l) == (GateReady => l.a \in {"GateOpen", "Crash"}) /\ Step0(l)
+\* ... and so does a save in read-only mode (the wrapped backend returns at once: no call leaves the library)
+ROReady == ReadOnly /\ \E t \in SaveThreads : spc[t] = "storing"
+Step(l) == (GateReady => l.a \in {"GateOpen", "Crash"}) /\ (ROReady => l.a \in {"SaveRet", "Crash"}) /\ Step0(l)
 
 MaxCtx == 6
 MaxTimers == 4
